@@ -1133,6 +1133,13 @@ caption_command(vbi_decoder *vbi, struct caption *cc,
 		case 10:	/* Text Restart			001 c10f  010 1010 */
 // not verified
 			ch = switch_channel(cc, ch, chan | 4);
+
+			/* EIA 608-B Section 7.4: Erases the text
+			   memory, cursor to the top left. */
+			erase_memory(cc, ch, ch->hidden);
+			erase_memory(cc, ch, ch->hidden ^ 1);
+			clear(ch->pg + (ch->hidden ^ 1));
+
 			set_cursor(ch, 1, 0);
 			return;
 
